@@ -142,10 +142,13 @@ pub uninterp spec fn segments(s: Seq<char>, c: RegExpConfig) -> Seq<Grapheme>;
 // what convert_to_char_classes does to one list of graphemes (unit classes: convert_to_char_classes.every_code_point_by_the_documented_precedence): opaque here
 pub uninterp spec fn classes_of(gs: Seq<Grapheme>, c: RegExpConfig) -> Seq<Grapheme>;
 pub open spec fn class_feature(c: RegExpConfig) -> bool { c.is_digit_converted || c.is_non_digit_converted || c.is_space_converted || c.is_non_space_converted || c.is_word_converted || c.is_non_word_converted }
-pub open spec fn prepared(s: Seq<char>, c: RegExpConfig) -> Seq<Grapheme> { if class_feature(c) { classes_of(segments(s, c), c) } else { segments(s, c) } }
+// whether grapheme_clusters runs the conversion: the answer of is_char_class_feature_enabled -- a pure function of the settings that is true WHENEVER one of the six options is set
+// (the code also answers true for case-insensitive matching and capturing groups; the conversion is then the identity: unit classes)
+pub uninterp spec fn conversion_runs(c: RegExpConfig) -> bool;
+pub open spec fn prepared(s: Seq<char>, c: RegExpConfig) -> Seq<Grapheme> { if conversion_runs(c) { classes_of(segments(s, c), c) } else { segments(s, c) } }
 impl RegExpConfig {
     // verified in unit gates against this clause (class_gate.*)
-    #[verifier::external_body] pub fn is_char_class_feature_enabled(&self) -> (r: bool) ensures r == class_feature(*self) { unimplemented!() }
+    #[verifier::external_body] pub fn is_char_class_feature_enabled(&self) -> (r: bool) ensures class_feature(*self) ==> r, r == conversion_runs(*self) { unimplemented!() }
 }
 impl<'a> GraphemeCluster<'a> {
     // the graphemes of a cluster are what the closure of flat_map builds for every segment (slice segment_graphemes below: every one of them is plain)
@@ -220,9 +223,10 @@ pub open spec fn made_for(g: Grapheme, text: Seq<char>, c: RegExpConfig) -> bool
     seg = 'segments(test_cases@[k]@, *config)'
     b.verified_fn('regexp.rs', 'grapheme_clusters', within=r"^impl<'a> RegExp<'a> \{", props=['C07'], fname='RegExp::grapheme_clusters', pre=pre,
                   clauses=[Clause('grapheme_clusters.one_cluster_per_test_case_in_order', 'r@.len() == test_cases@.len()', P),
+                           Clause('grapheme_clusters.classes_whenever_an_option_is_set', 'class_feature(*config) ==> conversion_runs(*config)', ['C03', 'C16']),
                            Clause('grapheme_clusters.classes_iff_an_option_is_set_and_repetitions_keep_the_symbols',
                                   'forall|k: int| 0 <= k < test_cases@.len() ==> (#[trigger] r@[k]).config == config && (if config.is_repetition_converted { deepflat(r@[k].graphemes@) == deepflat(prepared(test_cases@[k]@, *config)) } else { r@[k].graphemes@ == prepared(test_cases@[k]@, *config) })', P)],
-                  loops={1: ['vx_v1@.len() == test_cases@.len()', 'it1.iter.end == vx_v1@.len()', ('grapheme_clusters.classes_only_when_an_option_is_set@loop1', ['C03', 'C16'], 'class_feature(*config)'),
+                  loops={1: ['vx_v1@.len() == test_cases@.len()', 'it1.iter.end == vx_v1@.len()', ('grapheme_clusters.conversion_runs@loop1', ['C03', 'C16'], 'conversion_runs(*config)'),
                              ('grapheme_clusters.class_conversion_of_every_cluster@loop1', P, 'forall|k: int| 0 <= k < vx_v1@.len() ==> (#[trigger] vx_v1@[k]).config == config && all_plain(vx_v1@[k].graphemes@) && vx_v1@[k].graphemes@.len() < 0x1_0000_0000 && vx_v1@[k].graphemes@ == (if k < vx_k1 { classes_of(%s, *config) } else { %s })' % (seg, seg))],
                          2: ['vx_v2@.len() == test_cases@.len()', 'it2.iter.end == vx_v2@.len()', ('grapheme_clusters.repetitions_only_on_request@loop2', ['C05', 'C13', 'C16'], 'config.is_repetition_converted'),
                              ('grapheme_clusters.repetition_conversion_keeps_the_symbols@loop2', P, 'forall|k: int| 0 <= k < vx_v2@.len() ==> (#[trigger] vx_v2@[k]).config == config && (if k < vx_k2 { deepflat(vx_v2@[k].graphemes@) == deepflat(prepared(test_cases@[k]@, *config)) } else { vx_v2@[k].graphemes@ == prepared(test_cases@[k]@, *config) && all_plain(vx_v2@[k].graphemes@) && vx_v2@[k].graphemes@.len() < 0x1_0000_0000 })')],
